@@ -13,12 +13,18 @@ mod verif_c17_prio3 {
     use crate::field::verif_field_util::*;
     use crate::verif_common::*;
 
+    // contract stub of Prng::get (C11: an element of the stream, cursor advances): every stream is the constant
+    // stream 1,1,1,... so each helper's expansion subtracts exactly 1 from every leader element
+    pub static mut GET_CALLS: usize = 0;
+    fn prng_get_stub<F: crate::field::FieldElement, S: rand::Rng>(_p: &mut crate::prng::Prng<F, S>) -> F { unsafe { GET_CALLS += 1; } F::one() }
+
     macro_rules! shard_h {
         ($name:ident, $na:expr, $jr:expr, $il:expr) => {
             #[kani::proof]
             #[kani::unwind(40)]
             #[kani::stub(<crate::fp::FP64 as crate::fp::FieldOps<u64>>::mul, crate::verif_common::mul64_id_stub)]
             #[kani::stub(alloc::fmt::format, crate::verif_common::format_stub)]
+            #[kani::stub(crate::prng::Prng::get, prng_get_stub)]
             fn $name() {
                 let jr: usize = $jr;
                 let na: u8 = $na;
